@@ -785,6 +785,154 @@ w_oldatt(const char *fn)
     CK(SDend(sd));
 }
 
+static void
+w_bits_rw(const char *fn)
+{
+    int32 fid = Hopen(fn, DFACC_CREATE, 0);
+    if (fid == FAIL) {
+        nfail++;
+        return;
+    }
+    int32 b = Hstartbitwrite(fid, 1000, 1, 40000);
+    if (b == FAIL)
+        nfail++;
+    else {
+        uint32 v = 0;
+        for (int i = 0; i < 3000; i++)
+            if (Hbitwrite(b, 11, (uint32)i) == FAIL) {
+                nfail++;
+                break;
+            }
+        CK(Hbitseek(b, 0, 0));
+        if (Hbitread(b, 11, &v) == FAIL) /* write -> read switch flushes */
+            nfail++;
+        else
+            dg(&v, sizeof v);
+        CK(Hbitseek(b, 4125, 0));
+        for (int i = 0; i < 3000; i++) /* read -> write switch */
+            if (Hbitwrite(b, 7, (uint32)i) == FAIL) {
+                nfail++;
+                break;
+            }
+        CK(HDflush(fid));
+        CK(Hendbitaccess(b, 0));
+    }
+    CK(Hclose(fid));
+}
+
+static void
+w_ext_dir(const char *fn)
+{
+    int32 fid = Hopen(fn, DFACC_CREATE, 0);
+    if (fid == FAIL) {
+        nfail++;
+        return;
+    }
+    int32 aid = HXcreate(fid, 1000, 1, "c16_ext.dat", 0, 0);
+    if (aid == FAIL)
+        nfail++;
+    else {
+        CK(Hwrite(aid, 500, big));
+        CK(HXsetdir(".")); /* forces HXPwrite / HXPread to close and re-open the external file */
+        CK(Hwrite(aid, 500, big + 500));
+        CK(HXsetdir("./"));
+        CK(Hseek(aid, 0, DF_START));
+        if (Hread(aid, 1000, rbuf) == FAIL)
+            nfail++;
+        else
+            dg(rbuf, 1000);
+        CK(Hendaccess(aid));
+    }
+    CK(Hclose(fid));
+}
+
+static void
+w_gr_map(const char *fn)
+{
+    QUIET({
+        int32 fid     = Hopen(fn, DFACC_CREATE, 0);
+        int32 gr      = GRstart(fid);
+        int32 dims[2] = {20, 20};
+        int32 ri      = GRcreate(gr, "img8", 1, DFNT_UINT8, MFGR_INTERLACE_PIXEL, dims);
+        comp_info ci;
+        ci.deflate.level = 5;
+        GRsetcompress(ri, COMP_CODE_DEFLATE, &ci);
+        int32 st[2] = {0, 0};
+        GRwriteimage(ri, st, NULL, dims, big);
+        GRendaccess(ri);
+        GRend(gr);
+        Hclose(fid);
+    });
+    int32 fid = Hopen(fn, DFACC_READ, 0);
+    if (fid == FAIL) {
+        nfail++;
+        return;
+    }
+    int32 gr = GRstart(fid);
+    if (gr == FAIL)
+        nfail++;
+    else {
+        int32 ri = GRselect(gr, 0);
+        if (ri == FAIL)
+            nfail++;
+        else {
+            intn mapped = -1, created = -1;
+            if (GR2bmapped(ri, &mapped, &created) == FAIL)
+                nfail++;
+            else
+                dg(&mapped, sizeof mapped);
+            CK(GRendaccess(ri));
+        }
+        CK(GRend(gr));
+    }
+    CK(Hclose(fid));
+}
+
+static void
+w_flush(const char *fn)
+{
+    int32 fid = Hopen(fn, DFACC_CREATE, 0);
+    if (fid == FAIL) {
+        nfail++;
+        return;
+    }
+    CK(Hputelement(fid, 1000, 1, big, 300));
+    CK(HDflush(fid));
+    CK(Hclose(fid));
+}
+
+static void
+w_nbit_read(const char *fn)
+{
+    QUIET({
+        int32 sd      = SDstart(fn, DFACC_CREATE);
+        int32 dims[2] = {100, 90};
+        int32 sds     = SDcreate(sd, "data", DFNT_INT16, 2, dims);
+        SDsetnbitdataset(sds, 0, 9, TRUE, FALSE); /* sign extension on */
+        int32 st[2] = {0, 0};
+        SDwritedata(sds, st, NULL, dims, big);
+        SDendaccess(sds);
+        SDend(sd);
+    });
+    int32 sd = SDstart(fn, DFACC_READ);
+    if (sd == FAIL) {
+        nfail++;
+        return;
+    }
+    int32 sds = SDselect(sd, 0);
+    if (sds == FAIL)
+        nfail++;
+    else {
+        int32 st[2] = {0, 0}, dims[2] = {100, 90};
+        if (SDreaddata(sds, st, NULL, dims, rbuf) == FAIL)
+            nfail++;
+        else
+            dg(rbuf, 18000);
+        CK(SDendaccess(sds));
+    }
+    CK(SDend(sd));
+}
+
 static struct {
     const char *name;
     void (*fn)(const char *);
@@ -793,7 +941,7 @@ static struct {
          {"sd_unlim", w_sd_unlimited}, {"gr", w_gr0},         {"gr_deflate", w_gr1}, {"gr_rle", w_gr2},
          {"ext", w_ext},        {"an", w_an},                 {"bits", w_bits2},
          {"sd_nbit_big", w_sd_nbit_big}, {"gr_two", w_gr_two}, {"vs_ext", w_vs_ext}, 
-         {"sd_clobber", w_sd_clobber}, {"sd_update", w_sd_update}, {"read_all", w_read_all}, {"oldatt", w_oldatt}};
+         {"sd_clobber", w_sd_clobber}, {"sd_update", w_sd_update}, {"read_all", w_read_all}, {"oldatt", w_oldatt}, {"bits_rw", w_bits_rw}, {"ext_dir", w_ext_dir}, {"gr_map", w_gr_map}, {"flush", w_flush}, {"nbit_read", w_nbit_read}};
 
 static unsigned long
 hash_file(const char *fn, long *len)
